@@ -18,6 +18,9 @@ ASSUMPTIONS = [
     'element universe of 3 (quick) / 5 (thorough) hashable values; operands range over every ordered subset',
     'order is claimed for add, |=, construction, removals (survivors keep their order); & | - ^ results are compared as sets',
     'equality with unordered sets, with lists holding duplicates and with non-iterables is outside the statement',
+    'in-place operands also include lists/generators yielding an element more than once (a mathematical operand holds it once) and '
+    'operands that fail part-way (an unhashable element, a raising generator): how much of those is taken in is left open, the '
+    'set must remain a consistent ordered set within the bounds given in the code',
 ]
 
 PALETTES = [
@@ -58,8 +61,30 @@ class SetModel(explorer.Model):
     def val(self, i):
         return self.universe[i]
 
+    def raw_operand(self, kind, elems):
+        '''The values the operand yields when iterated, duplicates included.'''
+        vals = [self.val(i) for i in elems]
+        if kind == 'duplist':
+            return vals + vals
+        if kind == 'dupgen':
+            return vals + vals[::-1]
+        return vals
+
     def mk_operand(self, kind, elems, world=None):
         vals = [self.val(i) for i in elems]
+        if kind == 'duplist':
+            return self.raw_operand(kind, elems)
+        if kind == 'dupgen':
+            return (v for v in self.raw_operand(kind, elems))
+        if kind == 'unhashable':
+            # hashable values, then a value no set can hold, then one more hashable value
+            return vals + [[]] + [OUTSIDE]
+        if kind == 'raising':
+            def gen():
+                for v in vals:
+                    yield v
+                raise RuntimeError('operand failed')
+            return gen()
         if kind == 'oset':
             return self.cls('OrderedSet')(vals)
         if kind == 'qset':
@@ -110,11 +135,19 @@ class SetModel(explorer.Model):
         ops += [['pop', True], ['pop', False], ['pop', None], ['clear']]
         for name in ('ior', 'iand', 'isub', 'ixor'):
             ops.append(['iop', name, 'self', []])
-            for kind in ('oset', 'qset', 'list', 'tuple', 'gen'):
-                if kind == 'gen' and name == 'iand':
+            for kind in ('oset', 'qset', 'list', 'tuple', 'gen', 'duplist', 'dupgen'):
+                if kind in ('gen', 'dupgen') and name == 'iand':
                     continue  # "s &= generator" consumes the generator in a membership test: not a set operand
                 for e in self.operands:
+                    if kind in ('duplist', 'dupgen') and not e:
+                        continue
                     ops.append(['iop', name, kind, e])
+            # operands that fail part-way: whatever was taken in before, the set must stay a consistent ordered set
+            for kind in ('unhashable', 'raising'):
+                if kind == 'raising' and name == 'iand':
+                    continue
+                for e in self.operands:
+                    ops.append(['ifail', name, kind, e])
         n = len(w.r)
         for direction in ('fwd', 'rev'):
             for k in range(1, n + 1):
@@ -133,6 +166,7 @@ class SetModel(explorer.Model):
         exp_exc = None
         exp_ret = ('any',)
         relaxed = False
+        failing = None
         got_exc = None
         ret = None
         try:
@@ -169,7 +203,11 @@ class SetModel(explorer.Model):
                 ret = s.clear()
             elif name == 'iop':
                 _, iname, kind, elems = op
-                other_vals = list(r) if kind == 'self' else [self.val(i) for i in elems]
+                raw = list(r) if kind == 'self' else self.raw_operand(kind, elems)
+                other_vals = []
+                for v in raw:
+                    if v not in other_vals:
+                        other_vals.append(v)
                 other = self.mk_operand(kind, elems, w)
                 if iname == 'ior':
                     for v in other_vals:
@@ -191,8 +229,20 @@ class SetModel(explorer.Model):
                 exp_ret = ('is', w.s)
                 ret = s
                 # the operand must be left alone and must not be adopted: changing s later must not change it
-                if kind in ('oset', 'qset', 'list'):
-                    w.operand_after = (lst(other), other_vals, other)
+                if kind in ('oset', 'qset', 'list', 'duplist'):
+                    w.operand_after = (lst(other), raw, other)
+            elif name == 'ifail':
+                _, iname, kind, elems = op
+                failing = ([self.val(i) for i in elems], iname)
+                other = self.mk_operand(kind, elems, w)
+                if iname == 'ior':
+                    s |= other
+                elif iname == 'iand':
+                    s &= other
+                elif iname == 'isub':
+                    s -= other
+                elif iname == 'ixor':
+                    s ^= other
             elif name == 'iterdel':
                 _, direction, pos = op
                 order = list(r) if direction == 'fwd' else list(reversed(r))
@@ -216,7 +266,7 @@ class SetModel(explorer.Model):
             got_exc = type(e).__name__
 
         if not check:
-            if relaxed:
+            if relaxed or failing:
                 # adopt the implementation's order for the part the statement leaves open
                 w.r[:] = lst(w.s)
             return True
@@ -225,10 +275,37 @@ class SetModel(explorer.Model):
         ok = True
 
         def bad(kind, msg, expected=None, observed=None):
-            ctx.violation('c17:%s:%s' % (op[1] if name == 'iop' else name, kind), case,
+            ctx.violation('c17:%s:%s' % (op[1] if name in ('iop', 'ifail') else name, kind), case,
                           '%s after %s on %s: %s' % (self.clsname, op, before, msg),
                           expected, observed, unit_test=unit_test(self, hist, op))
 
+        if failing:
+            # The statement does not say how much of a failing operand is taken in; it does say the result is a set whose
+            # iteration, reverse iteration, length, membership, first and last agree.  Bounds: survivors keep their order,
+            # nothing outside the operand's values is added or removed, |= removes nothing, -= and &= add nothing.
+            vals, iname = failing
+            obs = lst(w.s)
+            ctx.distinct('outcomes', ('ifail', iname, op[2], got_exc, len(obs) - len(before)))
+            survivors = [v for v in before if v in obs]
+            added = [v for v in obs if v not in before]
+            removed = [v for v in before if v not in obs]
+            msg = None
+            if [v for v in obs if v in before] != survivors or len(set(map(repr, obs))) != len(obs):
+                msg = 'survivors are reordered or repeated'
+            elif any(v not in vals for v in added) or (iname in ('isub', 'iand') and added):
+                msg = 'elements %r appeared' % (added,)
+            elif (iname == 'ior' and removed) or (iname in ('isub', 'ixor') and any(v not in vals for v in removed)) or \
+                    (iname == 'iand' and any(v in vals for v in removed)):
+                msg = 'elements %r disappeared' % (removed,)
+            elif iname == 'ior' and added != [v for v in vals if v in added]:
+                msg = 'new elements %r are not in the order of the operand' % (added,)
+            if msg:
+                bad('failing-operand', 'with an operand failing after %r (%s): %s; iterates as %r' % (vals, got_exc, msg, obs),
+                    repr(before), repr(obs))
+                return False
+            r[:] = obs
+            ctx.count('traces')
+            return self.check_state(ctx, w, case, bad)
         if exp_exc != got_exc:
             bad('exception', 'expected %s, got %s' % (exp_exc or 'no exception', got_exc or 'no exception'),
                 exp_exc, got_exc)
